@@ -47,6 +47,18 @@ def _strip_prod(g, what):
     raise AnalysisError(f"unrecognised idiom: {what} is not `(np.prod(c) for c in <combinations>)`: {e5.show(g, 120)}")
 
 
+def _find_call(g, name):
+    """First call node of the graph whose callee ends in ``name``."""
+    if isinstance(g, tuple) and g:
+        if g[0] == "call" and e5.show(g[1]).split(".")[-1] == name:
+            return g
+        for x in g:
+            r = _find_call(x, name)
+            if r is not None:
+                return r
+    return None
+
+
 def rule_r1(rep, repo):
     fp = repo.method("MultiDomainGrid", "points")
     fw = repo.method("MultiDomainGrid", "weights")
@@ -61,7 +73,22 @@ def rule_r1(rep, repo):
     if W[0] == "comp":
         Wit = _strip_prod(W, "MultiDomainGrid.weights")
     else:
-        raise AnalysisError(f"unrecognised idiom: MultiDomainGrid.weights returns {e5.show(W, 100)}")
+        mg = _find_call(W, "meshgrid")
+        if mg is None:
+            raise AnalysisError(f"unrecognised idiom: MultiDomainGrid.weights returns {e5.show(W, 100)}")
+        # idiom B: product of broadcast weight arrays, flattened.  C-order ravel of an 'ij' mesh is the
+        # lexicographic order of itertools.product; the default indexing='xy' swaps the first two axes
+        # (known-wrong shape: weights no longer line up with the points)
+        kws = dict(mg[3])
+        indexing = kws.get("indexing")
+        if indexing != ("const", "'ij'"):
+            rep.violation("R1.properties-lockstep", "ngrid.MultiDomainGrid.weights", "points",
+                          f"weights are enumerated by flattening np.meshgrid(..., indexing="
+                          f"{e5.show(indexing) if indexing else 'default xy'}): with 'xy' indexing the first two domains are "
+                          f"exchanged, so weight k does not belong to point combination k (only 'ij' matches "
+                          f"itertools.product)", fw.loc(), [f"sibling {fp.loc()}"])
+            return P
+        raise AnalysisError("unrecognised idiom: meshgrid-based weights with 'ij' indexing (order must be argued by hand)")
     Wsw = e5.rename_attr(Wit, "weights", "points")
     d = e5.diff(P, Wsw)
     if d is None:
